@@ -158,14 +158,17 @@ class SetupRiemannProblem(object):
     
     
     def determine_shock_angle(self, state):
-        angle = self.deflection_angle_solution
-        _, _, M, _, g = state
+        _, _, M, theta_deg, g = state
+        theta = theta_deg / 180. * pi
+        # the flow turns by `angle` across the shock; the theta-beta-M relation
+        # gives the shock angle relative to the incoming flow direction
+        angle = self.deflection_angle_solution - theta
         def get_shock_contact_angle(x):
             val  = 2. / tan(x) * (M**2 * sin(x)**2 - 1.)
             val /= (2. + M**2 * (g + cos(2. * x)))
             return val
-        return fsolve(lambda x:
-                      get_shock_contact_angle(x)-tan(angle), angle)[0]
+        return theta + fsolve(lambda x:
+                              get_shock_contact_angle(x)-tan(angle), angle)[0]
     
 
     def set_starstate_values(self):
